@@ -100,8 +100,16 @@ CONTRACTS[F + "lempel_ziv_based_encode"] = dict(
     func_params={"hash_function": dict(returns="keyfn")},
     requires=[],
     modifies=["dictionary"],
+    # ghost accounting: every position of the string does exactly one of (count an existing phrase, add a new phrase with count 1,
+    # skip because the dictionary is full); so the sum of the counts grows by len(string) - skipped
+    ghost_init="g_counted = 0\ng_capped = 0",
+    ghost_after=[("dictionary[ngram] += 1", 1, "g_counted = g_counted + 1"), ("dictionary[ngram] = 1", 1, "g_counted = g_counted + 1"),
+                 ("@assign:start", 2, "g_capped = g_capped + 1")],
     ensures=["same(result, dictionary)"],
-    loops={"for#1": dict(invariant=["0 <= start and start <= end", "current_size >= card(dictionary)"])},
+    ensures_ghost=["g_counted + g_capped == len(string)", "implies(max_size > old(card(dictionary)) + len(string), g_capped == 0)"],
+    loops={"for#1": dict(invariant=["0 <= start and start <= end", "current_size >= card(dictionary)", "g_counted + g_capped == end",
+                                    "g_capped >= 0 and g_counted >= 0", "current_size <= old(card(dictionary)) + g_counted",
+                                    "implies(max_size > old(card(dictionary)) + len(string), g_capped == 0)"])},
 )
 
 CONTRACTS[F + "counts_to_csr_data"] = dict(
